@@ -172,6 +172,13 @@ fn attribute(w: &mut W, a: &AttributeInfo) {
 	w.bytes(&b.0);
 }
 
+/// the info bytes (what follows attribute_length) the JVMS prescribes for this attribute
+pub fn attribute_body(a: &AttributeInfo) -> Vec<u8> {
+	let mut b = W::default();
+	body(&mut b, a);
+	b.0
+}
+
 /// writes the info bytes of the attribute, returns its attribute_name_index
 fn body(b: &mut W, a: &AttributeInfo) -> u16 {
 	use AttributeInfo as A;
